@@ -107,6 +107,33 @@ func (w *iw) feedHold(b []byte) {
 	}
 }
 
+// feedBurst delivers the chunks as consecutive reads while the application
+// is not polling (the queues fill and the main loop falls behind the
+// reader), optionally lets simulated time pass meanwhile, and then resumes
+// polling with the clock held.  No escape timeout is due to the input
+// itself: all of it has arrived before the first byte is looked at.
+func (w *iw) feedBurst(chunks [][]byte, stallMs int) {
+	p := w.S.Find("poller")
+	w.S.Stall(p)
+	w.Tty.FeedChunks(chunks)
+	w.Tty.Faults.Inc("burst_unpolled")
+	if st := w.S.RunUntil(nil, w.S.Now()+1); st == simrt.Budget {
+		w.stall = true
+	}
+	if stallMs > 0 {
+		// the application stays away for stallMs: the clock moves on (and
+		// timers fire) while whatever is blocked stays blocked
+		w.S.Advance(hx.Ms(stallMs))
+		if st := w.S.RunUntil(nil, w.S.Now()+1); st == simrt.Budget {
+			w.stall = true
+		}
+	}
+	w.S.Unstall(p)
+	if st := w.S.RunUntil(nil, w.S.Now()+1); st == simrt.Budget {
+		w.stall = true
+	}
+}
+
 // settle runs to quiescence, letting timers expire.
 func (w *iw) settle() {
 	if st := w.S.Run(); st == simrt.Budget {
